@@ -31,3 +31,18 @@ pub fn narrowing(x: i64) -> i8 {
 pub fn index_by_input(v: &[i32], i: usize) -> i32 {
     v[i]
 }
+
+/// R29.4: a per-type state record replaced wholesale through a reference (resets every flag in it).
+pub struct StateRecord {
+    pub flag: bool,
+    pub items: Vec<i32>,
+}
+
+pub fn overwrite_state(r: &mut StateRecord) {
+    if r.items.is_empty() {
+        *r = StateRecord {
+            flag: false,
+            items: Vec::new(),
+        };
+    }
+}
